@@ -91,6 +91,24 @@ Theorem C12_checker_sound : forall plain paren f,
 Proof. exact chk_C12_sound. Qed.
 Print Assumptions C12_checker_sound.
 
+(* Concurrent evaluations of one compiled predicate (K lines of the harness): the extracted checker
+   [chk_C12K] is silent exactly when no evaluation aborted and none answered the opposite of the
+   expected decision ... *)
+Theorem C12_concurrent_checker_sound : forall (e : bool) (nt nf np : N),
+  chk_C12K e nt nf np = None <->
+  (np = 0%N /\ (e = true -> nf = 0%N) /\ (e = false -> nt = 0%N)).
+Proof. exact chk_C12K_sound. Qed.
+Print Assumptions C12_concurrent_checker_sound.
+
+(* ... and, fed with the counts of what any number of evaluations of one row answered, exactly when
+   every one of them is the decision of the predicate for THAT row (the decision is a function of the
+   predicate and the row alone, whatever else is evaluated at the same time). *)
+Theorem C12_concurrent_decisions_are_the_rows : forall (s : shape) (r : row) (ds : list bool),
+  chk_C12K (evaluate s r) (ncount true ds) (ncount false ds) 0%N = None <->
+  (forall d, In d ds -> d = evaluate s r).
+Proof. exact chk_C12K_counts. Qed.
+Print Assumptions C12_concurrent_decisions_are_the_rows.
+
 (* ---- the code as found violated the statement (repaired by fix: commits; the last conjunct shows
         the repaired shortcut declines) ---- *)
 (* F9: x == 9007199254740993, x = int64(9007199254740992): shortcut true, general false *)
